@@ -114,10 +114,17 @@ Definition econtent (s : schema) (e : ebody) : content jvalue * list diag :=
   let '(bs, bd) := expand_blocks s e false (cblocks raw) in
   ({| cattrs := prepare_attrs e (cattrs raw); cblocks := bs |}, d ++ bd).
 
-(* func (b *expandBody) JustAttributes: the original's, minus the attributes
-   recorded in hiddenAttrs (expand_body.go:263-279) *)
+(* func (b *expandBody) JustAttributes (expand_body.go:263-290): when
+   hiddenBlocks is not empty the original is first reduced by
+   PartialContent(schema of the hidden block headers) — content and
+   diagnostics discarded — and JustAttributes is asked of THAT remainder; the
+   attributes recorded in hiddenAttrs are then filtered out *)
 Definition ejust_attrs (e : ebody) : list (attr jvalue) * list diag :=
-  let '(l, d) := b_just_attrs I (eorig e) in (prepare_attrs e l, d).
+  let orig := match ehB e with
+              | [] => eorig e
+              | _ => snd (fst (b_partial I {| sattrs := []; sblocks := ehB e |} (eorig e)))
+              end in
+  let '(l, d) := b_just_attrs I orig in (prepare_attrs e l, d).
 
 (* the abstraction fields are not used by the checker and no law is claimed *)
 Definition expand_impl : BodyImpl jvalue ebody :=
